@@ -1011,6 +1011,9 @@ class SReal:
     def imag(self):
         return SReal(Poly())
 
+    def item(self):        # numpy scalar protocol
+        return self
+
     def conjugate(self):
         return self
 
@@ -1319,6 +1322,9 @@ class SComplex:
     @property
     def imag(self):
         return self.im
+
+    def item(self):
+        return self
 
     def conjugate(self):
         return SComplex(self.re, -self.im)
@@ -1816,6 +1822,97 @@ def explore(fn, *, timeout_ms=20000, max_paths=100000, max_decisions=2000,
     return paths
 
 
+def _re_part(x):
+    if isinstance(x, SComplex):
+        return x.re
+    if isinstance(x, (complex, np.complexfloating)):
+        return complex(x).real
+    return x
+
+
+def _im_part(x):
+    if isinstance(x, SComplex):
+        return x.im
+    if isinstance(x, (complex, np.complexfloating)):
+        return complex(x).imag
+    if x is None:
+        return None
+    return SReal(0) if isinstance(x, SReal) else 0
+
+
+def _mk_cplx(re, im):
+    re = 0 if re is None else re
+    im = 0 if im is None else im
+    if isinstance(re, SComplex) or isinstance(im, SComplex):
+        raise TypeError('complex value assigned to a real/imaginary part')
+    if isinstance(re, SReal) or isinstance(im, SReal):
+        return SComplex(re, im)
+    return complex(re, im)
+
+
+class SymArray(np.ndarray):
+    """object ndarray whose `.real` / `.imag` attributes (get and set) act
+    elementwise on the proxies.  A plain object ndarray returns ITSELF for
+    `.real` and zeros for `.imag`, which silently mis-models code written as
+    `x.real**2 + x.imag**2`."""
+    __array_priority__ = 20.0
+
+    def __array_wrap__(self, out_arr, *args, **kw):
+        # reductions of a subclass come back as 0-d arrays: hand out the
+        # element itself, as a plain object ndarray does
+        if getattr(out_arr, 'ndim', 1) == 0:
+            return out_arr[()]
+        if isinstance(out_arr, np.ndarray) and out_arr.dtype == object:
+            return out_arr.view(SymArray)
+        return out_arr
+
+    def _parts(self, f):
+        base = self.view(np.ndarray)
+        out = np.empty(base.shape, dtype=object)
+        for idx in np.ndindex(*base.shape):
+            out[idx] = f(base[idx])
+        return out.view(SymArray)
+
+    @property
+    def real(self):
+        if self.dtype != object:
+            return np.ndarray.real.__get__(self.view(np.ndarray))
+        return self._parts(_re_part)
+
+    @real.setter
+    def real(self, v):
+        if self.dtype != object:
+            np.ndarray.real.__set__(self, v)
+            return
+        base = self.view(np.ndarray)
+        v = np.broadcast_to(np.asarray(v, dtype=object), base.shape)
+        for idx in np.ndindex(*base.shape):
+            base[idx] = _mk_cplx(v[idx], _im_part(base[idx]))
+
+    @property
+    def imag(self):
+        if self.dtype != object:
+            return np.ndarray.imag.__get__(self.view(np.ndarray))
+        return self._parts(_im_part)
+
+    @imag.setter
+    def imag(self, v):
+        if self.dtype != object:
+            np.ndarray.imag.__set__(self, v)
+            return
+        base = self.view(np.ndarray)
+        v = np.broadcast_to(np.asarray(v, dtype=object), base.shape)
+        for idx in np.ndindex(*base.shape):
+            base[idx] = _mk_cplx(_re_part(base[idx]), v[idx])
+
+
+def as_symarray(a):
+    if isinstance(a, np.ndarray) and a.dtype == object and not isinstance(
+            a, SymArray):
+        return a.view(SymArray)
+    return a
+
+
 def sym_array(ctx, name, shape, kind='real', **kw):
     """Object ndarray of fresh symbolic reals/complex numbers."""
     shape = (shape, ) if isinstance(shape, int) else tuple(shape)
@@ -1823,7 +1920,7 @@ def sym_array(ctx, name, shape, kind='real', **kw):
     for idx in np.ndindex(*shape):
         n = name + ''.join('_%d' % i for i in idx)
         out[idx] = ctx.cplx(n) if kind == 'complex' else ctx.real(n, **kw)
-    return out
+    return out.view(SymArray)
 
 
 def const_array(a):
@@ -1838,4 +1935,4 @@ def const_array(a):
             out[idx] = SComplex(complex(v))
         else:
             out[idx] = SReal(v)
-    return out
+    return out.view(SymArray)
